@@ -26,6 +26,8 @@ def plans(quick):
          ("v-cosine-high", dict(depth=7, Sim=6, VisKind="cosine", VisThr=3), {"num": 15 if quick else 300, "depth": 8}),
          ("v-min-area", dict(depth=7, Sim=6, MinArea=3000), {"num": 20 if quick else 300, "depth": 8}),
          ("v-own", dict(depth=7, Sim=6, OwnUse=50, OwnCollect=50), {"num": 25 if quick else 300, "depth": 8}),
+         # only one of the two own-area thresholds set: the share is computed and the set one binds
+         ("v-own-use-only", dict(depth=7, Sim=6, OwnUse=50, OwnCollect=0), {"num": 25 if quick else 300, "depth": 8}),
          ("v-own-batch", dict(depth=5, Sim=12, OwnUse=50, OwnCollect=50, Kind="batch", Scenes={1, 2}, Slots={1, 2}, Confs={900, 800},
                               Feats={1}, Quals={90}, MaxDets=2), {"num": 12 if quick else 150, "depth": 6}),
          ("v-sim7-maha", dict(depth=7, Sim=6, Metric="maha", Thr=1000, VisThr=45), {"num": 25 if quick else 300, "depth": 8})]
